@@ -251,6 +251,42 @@ pub fn make_base(name: &str, inst: usize, cfg: &Cfg, fp: &FriParams) -> Result<P
             let p3_recursion::RecursionOutput(proof, _cpd) = out;
             Ok(ProofObj::Batch { proof, tpi: vec![vec![]; n] })
         }
+        "W" => {
+            // Wiring variants of one circuit shape (`p0, p1, out`: `x = p0 + p1`, then `idx` more
+            // steps `y = y + (p0 | p1)`, `y == out`): the two "value instances" use the OTHER
+            // operand in every step. Same op kinds in the same order, same table heights - one
+            // shape id (checked by main like for every base) - but other ALU operand indices in
+            // the preprocessed columns, hence another preprocessed commitment (checked by main).
+            let steps = idx + 1;
+            let tp = TablePacking::new(1, 1).with_fri_params(fp.log_final_poly_len, fp.log_blowup);
+            let (v0, v1) = if inst == 0 { (3u32, 4u32) } else { (7u32, 2u32) };
+            let mut b = CircuitBuilder::<F>::new();
+            let p0 = b.alloc_public_input("p0");
+            let p1 = b.alloc_public_input("p1");
+            let out = b.alloc_public_input("out");
+            let mut y = b.add(p0, p1);
+            let mut val = v0 + v1;
+            for _ in 0..steps {
+                y = b.add(y, if inst == 0 { p0 } else { p1 });
+                val += if inst == 0 { v0 } else { v1 };
+            }
+            b.connect(y, out);
+            let circuit = b.build().map_err(|e| format!("{e:?}"))?;
+            let (ad, pc, npc) =
+                get_airs_and_degrees_with_prep::<Cfg, F, 1>(&circuit, &tp, &[], &[], ConstraintProfile::Standard)
+                    .map_err(|e| format!("{e:?}"))?;
+            let (airs, degrees): (Vec<_>, Vec<_>) = ad.into_iter().unzip();
+            let mut r = circuit.runner();
+            r.set_public_inputs(&[F::from_u32(v0), F::from_u32(v1), F::from_u32(val)]).map_err(|e| format!("{e:?}"))?;
+            let traces = r.run().map_err(|e| format!("{e:?}"))?;
+            let pd = ProverData::from_airs_and_degrees(cfg, &airs, &degrees);
+            let cpd = CircuitProverData::new(pd, pc, npc);
+            let prover = BatchStarkProver::new(cfg.clone()).with_table_packing(tp);
+            let proof = prover.prove_all_tables(&traces, &cpd).map_err(|e| format!("{e}"))?;
+            prover.verify_all_tables::<F>(&proof).map_err(|e| format!("base {name} does not verify: {e}"))?;
+            let n = proof.proof.opened_values.instances.len();
+            Ok(ProofObj::Batch { proof, tpi: vec![vec![]; n] })
+        }
         _ => Err(format!("bad base name {name}")),
     }
 }
